@@ -142,3 +142,24 @@ def judge_timeline(
             )
             break
     return bad
+
+
+def judge_thread_ownership(foreign_calls: Sequence[str]) -> List[Tuple[str, str]]:
+    """asyncio's own rule, enforced by the loop in debug mode (BaseEventLoop._check_thread:
+    "Non-thread-safe operation invoked on an event loop other than the current one"): every loop
+    method except call_soon_threadsafe, and every transport method, must be called from the loop's
+    thread.  `foreign_calls` lists the calls the harness saw arriving from another thread at the
+    loop / transports it owns.  A timer armed with call_later from a worker thread while the loop
+    sleeps in select() may never fire, so "subscribed controllers end up with it as their latest
+    event" depends on this rule; it needs no timing to be judged."""
+    if not foreign_calls:
+        return []
+    kinds = sorted(set(foreign_calls))
+    return [
+        (
+            "C20:loop-touched-from-worker-thread",
+            "while delivering a worker-thread update the code used the event loop / a transport from the worker "
+            f"thread without call_soon_threadsafe: {kinds} ({len(foreign_calls)} call(s)); a timer armed that way may "
+            "never fire, so subscribers can miss the final value",
+        )
+    ]
